@@ -303,6 +303,19 @@ Definition run (fn : Z) (i : tree) : tree :=
   end.
 
 (* ---- specification side (uses nothing of C19.Model) *)
+(* the comparer the specification reasons with: for the default comparer the independent semantic-version
+   ordering wherever it is determined (the regenerated matrix only for notations the ordering does not
+   cover), for the reverse-lexicographic comparer its definition, for the chaotic one its table *)
+Definition spec_default_tab : list (list (option Z)) :=
+  map (fun a => map (fun b => match semver_expect (g_str a) (g_str b) with
+                              | Some e => e
+                              | None => g_cmp cmp_default a b
+                              end) grid_indices) grid_indices.
+Definition spec_revlex_tab : list (list (option Z)) :=
+  map (fun a => map (fun b => revlex_expect (g_str a) (g_str b)) grid_indices) grid_indices.
+Definition spec_tab_of (cmpid : Z) : list (list (option Z)) :=
+  match cmpid with 0 | 1 => spec_default_tab | 2 => spec_revlex_tab | _ => cmp_chaotic end.
+
 Definition s_caps (args : list (Z * list nat)) : list (Z * list (nat * nat)) :=
   map (fun c => (fst c, pair_up nat g_is_empty g_empty (snd c))) args.
 
@@ -350,11 +363,11 @@ Fixpoint forallb2 {A B} (f : A -> B -> bool) (a : list A) (b : list B) : bool :=
 
 Definition spec (fn : Z) (i o : tree) : bool :=
   match fn with
-  | 1 => let tab := tab_of (t_int (t_nth 0 i)) in
+  | 1 => let tab := spec_tab_of (t_int (t_nth 0 i)) in
          let caps := s_caps (caps_args (t_nth 1 i)) in
          forallb2 (s_version tab caps) grid_indices (t_list o)
   | 2 => tree_eqb o (TL (map range_tree (pair_up nat g_is_empty g_empty (map t_nat (t_list i)))))
-  | 3 => let tab := tab_of (t_int (t_nth 0 i)) in
+  | 3 => let tab := spec_tab_of (t_int (t_nth 0 i)) in
          let caps := s_caps (caps_args (t_nth 1 i)) in
          forallb2 (fun v => s_log tab caps (t_nat v)) (t_list (t_nth 2 i)) (t_list o)
   | 9 => let a := g_str (t_nat (t_nth 1 i)) in
